@@ -693,6 +693,10 @@ Definition wit_neglink : bytes := wit_link_with [76; 75] (W64 - 1).
 Definition wit_hugelink : bytes := wit_link_with [76; 75] H63.
 Definition wit_toklink : bytes :=
   wit_link_with ([76; 75; 91; 49; 93] ++ flat_map (fun _ => [67; 49; 91; 49; 93]) [1; 2; 3; 4]) 5.   (* LK[1]C1[1]C1[1]C1[1]C1[1] *)
+(* 03, output side: a 3000-character file part (ADFI_chase_link hands ADF_Get_Link_Path a char[1025]) *)
+Definition wit_longfile : bytes :=
+  wit_one wit_header [76] (mk_node [76] [] [76; 75] 0 0 blank_ptr 1 3004 1 (0, 1130))
+    (enc_data_chunk wa (1, 54) (repeat 102 3000 ++ [62; 47; 83; 120])).
 (* 05, other letter: format byte 0xFF (a negative char) *)
 Definition wit_fmtneg : bytes := firstn 100 wit_valid ++ [255] ++ skipn 101 wit_valid.
 (* 07: array length that does not fit an int *)
